@@ -185,13 +185,22 @@ func c10(c *Ctx) {
 }
 
 func c10Handle(c *Ctx, s Service, limField int, allow *ssa.Function) {
-	p := c.P
 	h := s.Handle
 	conn := handleConn(h)
 	key := TypeKey(s.Type)
 	if !c.Anchor(conn != nil, "token-before-reply", key+".Handle conn parameter") {
 		return
 	}
+	c10Fn(c, s, limField, allow, h, conn, key+".Handle", 0)
+}
+
+// c10Fn decides the token-before-reply discipline for function h of the service, with conn the connection value in it
+// (Handle itself, or a reply helper of the same service object that Handle hands its connection to). Returns whether every
+// write in it is guarded and how many Allow branches it has.
+func c10Fn(c *Ctx, s Service, limField int, allow *ssa.Function, h *ssa.Function, conn ssa.Value, label string, depth int) (allOK bool, nAllowOut int) {
+	p := c.P
+	key := label
+	allOK = true
 	memo := map[string]bool{}
 	sinks, t := connWriteSinks(h, []ssa.Value{conn}, memo, 3)
 
@@ -223,7 +232,7 @@ func c10Handle(c *Ctx, s Service, limField int, allow *ssa.Function) {
 					}
 				}
 				argOK := len(a.Call.Args) == 2 && isRemoteAddrOf(a.Call.Args[1], t)
-				k := fmt.Sprintf("%s.Handle Allow", key)
+				k := fmt.Sprintf("%s Allow", key)
 				c.Check(recvOK, "allow-own-limiter", k, p.InstrPos(a), "Allow called on the service's own limiter field", "Allow is not called on the limiter field of the service receiver: "+Render(a))
 				c.Check(argOK, "allow-own-remote-addr", k, p.InstrPos(a), "argument is conn.RemoteAddr() of the handler's connection", "Allow's argument is not RemoteAddr() of the handler's own connection: "+Render(a))
 				if recvOK && argOK {
@@ -253,16 +262,45 @@ func c10Handle(c *Ctx, s Service, limField int, allow *ssa.Function) {
 		}
 	}
 	allowEdge := func(b *ssa.BasicBlock, i int) bool { _, ok := enabling[en{b, i}]; return !ok }
-	c.Check(nAllow > 0, "allow-consulted", key+".Handle", p.Pos(h.Pos()), "Handle consults limiter.Allow", "Handle never branches on limiter.Allow")
+	svc := s
+	subAllow := 0
+	defer func() {
+		nAllowOut = nAllow + subAllow
+		if depth == 0 {
+			c.Check(nAllow+subAllow > 0, "allow-consulted", key, p.Pos(h.Pos()), "Handle consults limiter.Allow", "Handle never branches on limiter.Allow")
+		}
+	}()
 
 	isSink := map[ssa.Instruction]bool{}
 	for _, s := range sinks {
 		isSink[s] = true
 	}
 	reach0 := InstrReach(h, allowEdge, nil)
-	for i, s := range sinks {
-		k := fmt.Sprintf("%s.Handle reply[%d] %s", key, i, sinkName(s))
+	for i, sk := range sinks {
+		s := sk
+		k := fmt.Sprintf("%s reply[%d] %s", key, i, sinkName(s))
+		// the reply is made by a helper of the same service object that is handed the connection and takes the token itself
+		if call, isCall := s.(ssa.CallInstruction); isCall && depth < 2 && reach0(s) {
+			cc := call.Common()
+			if hf := cc.StaticCallee(); hf != nil && InRepo(hf) && hf.Blocks != nil && len(cc.Args) > 0 && cc.Args[0] == ssa.Value(h.Params[0]) {
+				var hp ssa.Value
+				for ai, a := range cc.Args {
+					if t[a] && ai < len(hf.Params) && ai > 0 {
+						hp = hf.Params[ai]
+					}
+				}
+				if hp != nil {
+					okSub, nSub := c10Fn(c, svc, limField, allow, hf, hp, key+" > "+hf.Name(), depth+1)
+					if okSub && nSub > 0 {
+						subAllow += nSub
+						c.Ok("token-before-reply", k, p.InstrPos(s), "the helper takes the token itself before it writes")
+						continue
+					}
+				}
+			}
+		}
 		if reach0(s) {
+			allOK = false
 			c.Violate("token-before-reply", k, p.InstrPos(s), "a write to the client connection is reachable from Handle's entry without taking limiter.Allow()==true or a non-UDP edge: a UDP datagram gets a reply without spending a token")
 			continue
 		}
@@ -276,17 +314,20 @@ func c10Handle(c *Ctx, s Service, limField int, allow *ssa.Function) {
 			}
 		}
 		if bad != "" {
+			allOK = false
 			c.Violate("token-before-reply", k, p.InstrPos(s), "after this reply another reply ("+bad+") is reachable without a new limiter token: one request datagram can yield several responses")
 			continue
 		}
 		// a reply made through a helper of the repository counts as ONE datagram only if the helper writes once
 		udpReach := InstrReach(h, func(b *ssa.BasicBlock, i int) bool { return enabling[en{b, i}] != `Network()!="udp"` }, nil)
 		if why := helperWritesRepeatedly(s, t, 3); why != "" && udpReach(s) {
+			allOK = false
 			c.Violate("token-before-reply", k, p.InstrPos(s), "this reply is made by a helper that can write to the connection more than once for the one token taken here ("+why+"): the sender controls how many response datagrams a single admitted request produces")
 			continue
 		}
 		c.Ok("token-before-reply", k, p.InstrPos(s), "guarded by "+fmt.Sprint(len(enabling))+" enabling edge(s); no second reply without a new token")
 	}
+	return
 }
 
 // helperWritesRepeatedly: the sink is a call of an in-repo function receiving the connection whose own writes to it
@@ -461,7 +502,7 @@ func c10Limiter(c *Ctx, allow *ssa.Function, limType *types.Named) {
 					cal := x.Call.StaticCallee()
 					if MethodIs(cal, "sync", "Map", "LoadOrStore") || MethodIs(cal, "sync", "Map", "Load") {
 						lss = append(lss, x)
-					} else if hl := c10BucketHelper(cal, mIdx, limType); hl != nil && len(x.Call.Args) == 3 {
+					} else if hl := c10BucketHelper(cal, mIdx, limType); hl != nil && (len(x.Call.Args) == 3 || len(x.Call.Args) == 2) {
 						// l.bucket(key, candidate): a helper of the limiter that is exactly LoadOrStore on the table
 						lss = append(lss, x)
 						helperLS[x] = hl
@@ -542,13 +583,18 @@ func c10Limiter(c *Ctx, allow *ssa.Function, limType *types.Named) {
 			}
 			c.Check(okKey, "limiter-key-ip-only", k, p.InstrPos(ls), "bucket key = IP.String() of the asserted address", "bucket key is not the bare IP of the caller's address (a key containing the port gives every source port its own burst): "+kr)
 			// stored value: rate.NewLimiter(l.interval, l.burst)
-			nv := Unwrap(ls.Call.Args[2])
+			var nv ssa.Value
+			if len(ls.Call.Args) >= 3 {
+				nv = Unwrap(ls.Call.Args[2])
+			} else if hl := helperLS[ls]; hl != nil && len(hl.Call.Args) >= 3 {
+				nv = Unwrap(hl.Call.Args[2]) // the candidate is created inside the bucket helper (its receiver is p0 there too)
+			}
 			okNew := false
 			if nc, ok := nv.(*ssa.Call); ok && FuncIs(nc.Call.StaticCallee(), "golang.org/x/time/rate", "NewLimiter") {
 				a0, a1 := Render(nc.Call.Args[0]), Render(nc.Call.Args[1])
 				okNew = a0 == "p0.interval" && a1 == "p0.burst"
 			}
-			c.Check(okNew, "limiter-bucket-params", k, p.InstrPos(ls), "new buckets use l.interval, l.burst", "new bucket not created with rate.NewLimiter(l.interval, l.burst): "+Render(nv))
+			c.Check(okNew, "limiter-bucket-params", k, p.InstrPos(ls), "new buckets use l.interval, l.burst", "new bucket not created with rate.NewLimiter(l.interval, l.burst): "+fmt.Sprint(nv))
 		}
 	}
 	c.Floor("limiter-decision", 2, "an accepting arm and the refusal")
@@ -609,7 +655,13 @@ func fieldNameOf(fa *ssa.FieldAddr) string {
 // c10BucketHelper: f is a method of the limiter whose result is the value of one LoadOrStore(param1, param2) on the
 // limiter's own table (returns that LoadOrStore call), so a call f(l, key, candidate) stands for the LoadOrStore itself.
 func c10BucketHelper(f *ssa.Function, mIdx int, limType *types.Named) *ssa.Call {
-	if f == nil || !InRepo(f) || f.Blocks == nil || len(f.Params) != 3 || f.Signature.Recv() == nil || NamedOf(f.Signature.Recv().Type()) != limType {
+	if f == nil || !InRepo(f) || f.Blocks == nil || f.Signature.Recv() == nil || NamedOf(f.Signature.Recv().Type()) != limType {
+		return nil
+	}
+	if len(f.Params) == 2 {
+		return c10BucketHelper2(f, mIdx)
+	}
+	if len(f.Params) != 3 {
 		return nil
 	}
 	var ls *ssa.Call
@@ -631,6 +683,68 @@ func c10BucketHelper(f *ssa.Function, mIdx int, limType *types.Named) *ssa.Call 
 	}
 	if n != 1 {
 		return nil
+	}
+	return ls
+}
+
+// c10BucketHelper2: f(l, key) returns the bucket of key: every value it can return is the result of Load(key) or
+// LoadOrStore(key, …) on the limiter's own table (a Load first only saves the allocation; the insert is still atomic),
+// at least one LoadOrStore is among them, and the table is touched in no other way. Returns that LoadOrStore.
+func c10BucketHelper2(f *ssa.Function, mIdx int) *ssa.Call {
+	var ls *ssa.Call
+	onTable := func(cv *ssa.Call) bool {
+		fa, isFA := cv.Call.Args[0].(*ssa.FieldAddr)
+		return isFA && fa.Field == mIdx && fa.X == ssa.Value(f.Params[0]) && len(cv.Call.Args) >= 2 && Unwrap(cv.Call.Args[1]) == ssa.Value(f.Params[1])
+	}
+	for _, call := range Calls(f) {
+		cv, ok := call.(*ssa.Call)
+		if !ok {
+			continue
+		}
+		cal := cv.Call.StaticCallee()
+		switch {
+		case MethodIs(cal, "sync", "Map", "LoadOrStore"):
+			if !onTable(cv) {
+				return nil
+			}
+			ls = cv
+		case MethodIs(cal, "sync", "Map", "Load"):
+			if !onTable(cv) {
+				return nil
+			}
+		case cal != nil && PkgOf(cal) == "sync":
+			return nil
+		}
+	}
+	if ls == nil {
+		return nil
+	}
+	for _, r := range Returns(f) {
+		for _, lf := range leaves(RetVals(r)[0]) {
+			ok := false
+			switch x := lf.(type) {
+			case *ssa.Extract:
+				if cv, isC := x.Tuple.(*ssa.Call); isC && (MethodIs(cv.Call.StaticCallee(), "sync", "Map", "LoadOrStore") || MethodIs(cv.Call.StaticCallee(), "sync", "Map", "Load")) {
+					ok = true
+				}
+				if ta, isTA := x.Tuple.(*ssa.TypeAssert); isTA {
+					if ex2, isE := ta.X.(*ssa.Extract); isE {
+						if cv, isC := ex2.Tuple.(*ssa.Call); isC && (MethodIs(cv.Call.StaticCallee(), "sync", "Map", "LoadOrStore") || MethodIs(cv.Call.StaticCallee(), "sync", "Map", "Load")) {
+							ok = true
+						}
+					}
+				}
+			case *ssa.TypeAssert:
+				if ex2, isE := x.X.(*ssa.Extract); isE {
+					if cv, isC := ex2.Tuple.(*ssa.Call); isC && (MethodIs(cv.Call.StaticCallee(), "sync", "Map", "LoadOrStore") || MethodIs(cv.Call.StaticCallee(), "sync", "Map", "Load")) {
+						ok = true
+					}
+				}
+			}
+			if !ok {
+				return nil
+			}
+		}
 	}
 	return ls
 }
